@@ -265,6 +265,20 @@ def gen_world(rng):
             entries.append({"path": ".gitignore", "kind": "plain", "c": [], "l": [], "reads": ".gitignore"})
             defects.append(("no-info", ".gitignore"))
             ignored = ["build/gen.py", "scratch.tmp"]
+            if rng.chance(0.5):
+                # several ignored directories next to each other (whatever order the file system lists them in)
+                files[-3]["content"] = "build/\nout*/\n*.tmp\n"
+                for k in range(1, rng.randint(3, 5)):
+                    files.append({"path": f"out{k}/product.o", "content": f"object {k}\n"})
+                    ignored.append(f"out{k}/product.o")
+            if rng.chance(0.3):
+                # ignore rules from the user's own Git configuration (core.excludesFile), not from the tree
+                world["home"] = [{"path": ".gitconfig", "content": "[core]\n\texcludesFile = ~/.gitignore_global\n"},
+                                 {"path": ".gitignore_global", "content": "*.scratch\n.idea/\n"}]
+                files.append({"path": "src/notes.scratch", "content": "notes\n"})
+                files.append({"path": ".idea/workspace.xml", "content": "<xml/>\n"})
+                world["git"]["use_home_config"] = True
+                ignored += ["src/notes.scratch", ".idea/workspace.xml"]
             if rng.chance(0.4):
                 # a submodule (by .gitmodules) whose files carry nothing: not covered, whatever the working directory
                 files.append({"path": ".gitmodules", "content": '[submodule "lib"]\n\tpath = vendor/lib\n\turl = https://example.org/lib.git\n'})
@@ -278,6 +292,10 @@ def gen_world(rng):
                 entries.append({"path": "legacy.tmp", "kind": "plain", "c": [], "l": [], "reads": "legacy.tmp"})
                 defects.append(("no-info", "legacy.tmp"))
                 world["git"]["force_add"] = ["legacy.tmp"]
+    if rng.chance(0.2):
+        # Meson subprojects are not covered unless asked for
+        for name in rng.sample(["liba", "libb", "libc"], rng.randint(2, 3)):
+            files.append({"path": f"subprojects/{name}/code.c", "content": "int unlicensed;\n"})
     return world, entries, lic_files, defects, ignored
 
 
@@ -287,7 +305,7 @@ def gen_case(seed, tier, index=0):
     sizes = {f["path"]: len(f["content"].encode("utf-8", "surrogateescape")) for f in world["files"]}
 
     subdirs = sorted({posixpath.dirname(f["path"]).split("/")[0] for f in world["files"]
-                      if "/" in f["path"] and not f["path"].startswith((".", "LICENSES", "build", "vendor"))})
+                      if "/" in f["path"] and not f["path"].startswith((".", "LICENSES", "build", "vendor", "out", "subprojects"))})
 
     def env():
         e = {"readdir_key": rng.randrange(1 << 30) if rng.chance(0.7) else 0}
@@ -464,8 +482,12 @@ def _valid(case):
             return False
         if e["kind"] == "dep5" and ".reuse/dep5" not in present:
             return False
-    if case.get("ignored") and ".gitignore" not in present:
+    if case.get("ignored") and (".gitignore" not in present or not case["world"].get("git")):
         return False
+    if any(p in present for p in ("src/notes.scratch", ".idea/workspace.xml")):
+        g = case["world"].get("git") or {}
+        if not g.get("use_home_config") or len(case["world"].get("home") or []) < 2:
+            return False
     return True
 
 
